@@ -60,10 +60,10 @@ def impl_parse(text, mode="auto", want_segments=True, limit_s=5.0):
     from yamlpath.enums import PathSeparators
     from yamlpath.exceptions import YAMLPathException
     res = {}
-    old = signal.signal(signal.SIGALRM, _alarm)
+    old = signal.signal(signal.SIGVTALRM, _alarm)
     try:
         for which in ("esc", "unesc"):
-            signal.setitimer(signal.ITIMER_REAL, limit_s)
+            signal.setitimer(signal.ITIMER_VIRTUAL, limit_s)
             try:
                 p = YAMLPath(text)
                 if mode == "dot":
@@ -81,9 +81,9 @@ def impl_parse(text, mode="auto", want_segments=True, limit_s=5.0):
             except Exception as e:  # noqa
                 res[which] = {"crash": type(e).__name__, "site": core.crash_site(e)}
             finally:
-                signal.setitimer(signal.ITIMER_REAL, 0)
+                signal.setitimer(signal.ITIMER_VIRTUAL, 0)
     finally:
-        signal.signal(signal.SIGALRM, old)
+        signal.signal(signal.SIGVTALRM, old)
     return res
 
 
